@@ -86,6 +86,13 @@ $(B)/sim_par: $(B)/asan/sim_par.o $(B)/asan/librepo.a $(BUILD)/fw/vpar.o $(BUILD
 $(B)/sim_par_tsan: $(B)/tsan/sim_par.o $(B)/tsan/librepo.a $(BUILD)/fw/vpar.o $(BUILD)/fw/vsim.o
 	$(CXX) $(TSAN) $^ -lz -lpthread -o $@
 
+# ---- sim-proc: real Process.cc against the lock-stepped child
+WRAP_PROC := fork waitpid kill poll read write close gettimeofday pipe
+WRAPFLAGS_PROC := $(foreach s,$(WRAP_PROC),-Wl,--wrap=$(s))
+
+$(B)/sim_proc: $(B)/asan/sim_proc.o $(B)/asan/librepo.a $(BUILD)/fw/vsim.o $(BUILD)/fw/vsim-child
+	$(CXX) $(ASAN) $(WRAPFLAGS_PROC) $(B)/asan/sim_proc.o $(B)/asan/librepo.a $(BUILD)/fw/vsim.o -lz -lpthread -o $@
+
 engine: $(B)/$(E)
 
 clean:
